@@ -6,6 +6,7 @@
 # usage: ./selftest.sh [seed-id-prefix]
 cd "$(dirname "$0")"
 . ./env.sh 2>/dev/null
+export LSVC_CACHE=1
 WT=$(mktemp -d /tmp/lsvc-selftest.XXXXXX)
 rmdir "$WT"
 git -C /repo worktree add -q --detach "$WT" HEAD || exit 2
